@@ -38,6 +38,11 @@ func runC09(c *engine.Ctx, tier string) {
 		When:    base + "@P.Status.Phases.Apply != nil && @P.Status.Phases.Apply.State == config/v2.ProposalApplyPhase_APPLYING && err(@CFG) == nil && !(@CFG.Status.Applied.Index >= @OWN) && @PREV != 0 && @CFG.Status.Applied.Index != @PREV",
 		Result0: requeuePrev, Returns: "err==nil",
 		Why: "an apply that waits for its predecessor's apply pokes the predecessor"})
+	c.Outcome(engine.Outcome{ID: "C09.1c", Pkg: pkgProposalCtl, Root: "Reconciler.Reconcile", Min: 1,
+		When: base + "@P.Status.Phases.Apply == nil && @P.Status.Phases.Abort != nil && @P.Status.Phases.Abort.State == config/v2.ProposalAbortPhase_ABORTING && err(@CFG) == nil && @PREV != 0 && " +
+			"@CFG.Status.Committed.Index != @PREV && !(@CFG.Status.Applied.Index == @PREV && @CFG.Status.Committed.Index >= @OWN)",
+		Result0: requeuePrev, Returns: "err==nil",
+		Why: "an abort whose turn has not come (no cursor is at its predecessor) pokes the predecessor like the other waits do (F52)"})
 	// (2) terminal states wake the successor
 	for _, x := range []struct{ id, when string }{
 		{"C09.2a", "@P.Status.Phases.Apply == nil && @P.Status.Phases.Abort == nil && @P.Status.Phases.Commit != nil && @P.Status.Phases.Commit.State == config/v2.ProposalCommitPhase_COMMITTED"},
@@ -103,7 +108,10 @@ var watcherTable = []struct {
 	{pkgProposalCtl, "Watcher", []string{"controller.NewID(@E.Proposal.ID)"}},
 	{pkgProposalCtl, "ConfigurationWatcher", []string{
 		"controller.NewID(store/v2/proposal.NewID(@E.Configuration.TargetID,@E.Configuration.Index))",
-		"controller.NewID(store/v2/proposal.NewID(@E.Configuration.TargetID,@E.Configuration.Status.Applied.Index))"}},
+		"controller.NewID(store/v2/proposal.NewID(@E.Configuration.TargetID,@E.Configuration.Status.Applied.Index))",
+		// before the first apply Applied.Index is 0 and after a rollback Configuration.Index has moved back: the
+		// proposals that wait for a target that connects late are reached from the last proposed one (F52)
+		"controller.NewID(store/v2/proposal.NewID(@E.Configuration.TargetID,@E.Configuration.Status.Proposed.Index))"}},
 	{pkgTransactionCtl, "Watcher", []string{"controller.NewID(@E.Transaction.Index)"}},
 	{pkgTransactionCtl, "ProposalWatcher", []string{"controller.NewID(@E.Proposal.TransactionIndex)"}},
 	{pkgConfigCtl, "Watcher", []string{"controller.NewID(@E.Configuration.ID)"}},
